@@ -565,9 +565,12 @@ fn run_qv_collect(ctx: &mut Ctx, gen: &Gen, ty: u8, offset: i8) {
                 .enumerate()
                 .map(|(i, &b)| {
                     // value = b + 4*k with k depending on position and `offset` (negative offsets only for signed types)
-                    let k = (offset as i128) * (1 + (i as i128 % 5));
-                    let raw = b as i128 + 4 * k;
-                    raw as $t
+                    // offsets +-100 stand for a multiple of 4 far out in the value range of the type
+                    match offset {
+                        100 => (b as $t).wrapping_add((<$t>::MAX / 8) * 4).wrapping_sub(((i % 3) * 4) as $t),
+                        -100 => (b as $t).wrapping_add((<$t>::MIN / 8) * 4).wrapping_add(((i % 3) * 4) as $t),
+                        o => (b as i128 + 4 * (o as i128) * (1 + (i as i128 % 5))) as $t,
+                    }
                 })
                 .collect();
             let want: Vec<u8> = vs.iter().map(|&x| ((x as i128) & 3) as u8).collect();
@@ -654,7 +657,7 @@ fn run_iter_tree<X: Tree>(ctx: &mut Ctx, gen: &Gen, vm: &str, extra: usize) {
     let t = ctx.total("new", "", 0, 0, 0, || X::from_vec(vals.clone()));
     qwt::verif_hooks::set_tie_script(None);
     let Some(t) = t else { return };
-    let hs = all_histories(vals.len() + extra);
+    let hs = if vals.len() <= 8 { all_histories(vals.len() + extra) } else { vec![] };
     ctx.add("histories", 3 * hs.len() as u64);
     for h in &hs {
         ctx.add("states", h.len() as u64 + 1);
@@ -669,6 +672,34 @@ fn run_iter_tree<X: Tree>(ctx: &mut Ctx, gen: &Gen, vm: &str, extra: usize) {
         {
             let mut it = t.clone().into_iter_();
             drive_de(ctx, "into_iter()", &vals, h, &mut *it);
+        }
+    }
+    if vals.is_empty() {
+        // the derived Default is a state no constructor builds: it must iterate as the empty sequence
+        let d = X::default();
+        for h in &hs {
+            let mut it = d.iter_();
+            drive_de(ctx, "default().iter()", &vals, h, &mut *it);
+            let mut it = d.ref_into_iter_();
+            drive_de(ctx, "(&default()).into_iter()", &vals, h, &mut *it);
+            let mut it = X::default().into_iter_();
+            drive_de(ctx, "default().into_iter()", &vals, h, &mut *it);
+        }
+    }
+    if vals.len() >= 100 {
+        for &a in NTH_A.iter().filter(|&&a| a <= vals.len()) {
+            for &b in &[0usize, 1, 3, 64, 200] {
+                let mut it = t.iter_();
+                drive_nth(ctx, "iter()", &vals, a, b, &mut *it);
+                let mut it = t.clone().into_iter_();
+                drive_nth(ctx, "into_iter()", &vals, a, b, &mut *it);
+            }
+        }
+        // nth_back / rev on the double-ended iterator
+        let rev: Vec<X::T> = vals.iter().rev().copied().collect();
+        for &a in &[0usize, 1, 64, 129] {
+            let mut it = t.iter_().rev();
+            drive_nth(ctx, "iter().rev()", &rev, a, 3, &mut it);
         }
     }
     // whole-sequence adaptors built on the same calls
@@ -702,6 +733,35 @@ fn drive_fwd<T: Copy + PartialEq + std::fmt::Debug + Hash>(
     ctx.add("states", (vals.len() + extra + 1) as u64);
     ctx.add("histories", 1);
 }
+
+/// next() a times, then nth(b), then next() to exhaustion and beyond; size_hint must bracket the
+/// number of remaining elements at every point. Covers iterator methods an implementation may override
+/// (nth, size_hint and everything std derives from them: skip, step_by, count, last ...).
+fn drive_nth<T: Copy + PartialEq + std::fmt::Debug + Hash>(ctx: &mut Ctx, method: &'static str, vals: &[T], a: usize, b: usize, it: &mut dyn Iterator<Item = T>) {
+    let mut pos = 0usize;
+    let hint_ok = |it: &dyn Iterator<Item = T>, remaining: usize| -> bool {
+        let (lo, hi) = it.size_hint();
+        lo <= remaining && hi.map_or(true, |h| h >= remaining)
+    };
+    ctx.add("transitions", (a + 1) as u64);
+    for _ in 0..a {
+        ctx.obs(method, "nth-history", 0, pos as u64, 0, Exp::Is(vals.get(pos).copied()), || it.next());
+        pos += 1;
+    }
+    ctx.obs(method, "size_hint", 3, pos as u64, 0, Exp::Is(true), || hint_ok(&*it, vals.len().saturating_sub(pos)));
+    ctx.obs(method, "nth", 4, pos as u64, b as u64, Exp::Is(vals.get(pos + b).copied()), || it.nth(b));
+    pos = (pos + b + 1).min(vals.len() + 1);
+    ctx.obs(method, "size_hint", 3, pos as u64, 0, Exp::Is(true), || hint_ok(&*it, vals.len().saturating_sub(pos)));
+    for _ in 0..(vals.len().saturating_sub(pos)).min(300) + 2 {
+        ctx.obs(method, "after-nth", 0, pos as u64, 0, Exp::Is(vals.get(pos).copied()), || it.next());
+        pos += 1;
+        ctx.add("transitions", 1);
+    }
+    ctx.add("histories", 1);
+}
+
+const NTH_A: [usize; 11] = [0, 1, 63, 64, 65, 127, 128, 129, 255, 256, 257];
+const NTH_B: [usize; 8] = [0, 1, 3, 63, 64, 127, 128, 200];
 
 fn run_iter_bits(ctx: &mut Ctx, gen: &BitGen, extra: usize) {
     let bits = gen.bits();
@@ -737,6 +797,22 @@ fn run_iter_bits(ctx: &mut Ctx, gen: &BitGen, extra: usize) {
         let it = RefCell::new(bvm.zeros());
         drive_fwd(ctx, "BitVectorMut::zeros", &r.zeros, extra, || it.borrow_mut().next(), || None);
     }
+    if bits.len() >= 60 {
+        ctx.set_ty("bit vector iterators (nth histories)");
+        for &a in NTH_A.iter().filter(|&&a| a <= bits.len()) {
+            for &b in &NTH_B {
+                drive_nth(ctx, "BitVector::iter", &bits, a, b, &mut bv.iter());
+                drive_nth(ctx, "BitVectorMut::iter", &bits, a, b, &mut bvm.iter());
+                drive_nth(ctx, "BitVector::into_iter", &bits, a, b, &mut bv.clone().into_iter());
+                if a <= r.ones.len() {
+                    drive_nth(ctx, "BitVector::ones", &r.ones, a, b, &mut bv.ones());
+                }
+                if a <= r.zeros.len() {
+                    drive_nth(ctx, "BitVector::zeros", &r.zeros, a, b, &mut bv.zeros());
+                }
+            }
+        }
+    }
     ctx.set_ty("DArray iterators");
     {
         let da: DArray<true> = bits.iter().copied().collect();
@@ -762,6 +838,14 @@ fn run_iter_quads(ctx: &mut Ctx, gen: &Gen, extra: usize) {
         drive_fwd(ctx, "(&QVector)::into_iter", &q, extra, || it.borrow_mut().next(), || None);
         let it = RefCell::new(qv.clone().into_iter());
         drive_fwd(ctx, "QVector::into_iter", &q, extra, || it.borrow_mut().next(), || None);
+    }
+    if q.len() >= 100 {
+        for &a in NTH_A.iter().filter(|&&a| a <= q.len()) {
+            for &b in &NTH_B {
+                drive_nth(ctx, "QVector::iter", &q, a, b, &mut qv.iter());
+                drive_nth(ctx, "QVector::into_iter", &q, a, b, &mut qv.clone().into_iter());
+            }
+        }
     }
     let r256: RSQVector256 = q.iter().copied().collect();
     let r512: RSQVector512 = q.iter().copied().collect();
@@ -868,7 +952,7 @@ fn enumerate(args: &Args) -> Vec<HCase> {
             v.push(HCase::QvModel { start_len: 255, cap: true, depth: 3 });
             for g in tiny_all(4, if th { 7 } else { 5 }) {
                 for ty in 0..12u8 {
-                    for offset in [0i8, 1, 7, -1, -3] {
+                    for offset in [0i8, 1, 7, 100, -1, -3, -100] {
                         if offset < 0 && ty >= 6 {
                             continue;
                         }
@@ -892,8 +976,13 @@ fn enumerate(args: &Args) -> Vec<HCase> {
                     v.push(HCase::IterTree { alias: al.to_string(), elem: e.into(), gen: g.clone(), vmap: if huff { "hpow4".into() } else { "pow4".into() }, extra: if th { 3 } else { 2 } });
                 }
             }
-            // longer sequences: all histories are too many, n+3 steps from either end are covered by the
-            // short ones; here the plain forward / backward / alternating histories
+            // longer sequences: next / nth / size_hint histories around the 64 / 128 / 256 boundaries
+            for (j, al) in aliases.iter().enumerate() {
+                let huff = al.starts_with('H');
+                for n in [130usize, 300] {
+                    v.push(HCase::IterTree { alias: al.to_string(), elem: ELEMS[j % 4].into(), gen: Gen::Boundary { n, pat: Pat::Periodic, sigma: 7 }, vmap: if huff { "hid".into() } else { "id".into() }, extra: 0 });
+                }
+            }
             for g in tinybits_all(if th { 9 } else { 7 }) {
                 v.push(HCase::IterBits { gen: g, extra: 4 });
             }
